@@ -3,6 +3,8 @@
   `Gate`: what the property calls "frozen for the token" / "token paused on the shard", read from the state.
 -/
 import Proofs.Ledger
+import Proofs.Gates
+import Proofs.WF
 namespace C04
 open Esdt
 
@@ -103,11 +105,56 @@ theorem zero_entry_forms (t : Token) (h : t.value = some 0) :
   · simp [storedForm, h, flagBytes, allZero]
   · simp [storedForm, flagBytes, allZero, encToken_ne_nil]
 
--- FULL (remaining parts, stated): the same blocking for ESDTNFTCreate / AddURI / UpdateAttributes / NFT and multi transfers
--- (all go through `saveNFT` / `addNFTToDestination`, whose specifications `spec_saveNFT` / `spec_addNFTToDestination`
--- carry the gate facts) and for the destination side of NFT and multi transfers; pause / unpause preserve every balance
--- (they write only the 2-byte flag in the system account: `C05.bounded_footprint` + `Esdt.frame_esdtPause`).
--- Decided today by the C04 oracle (no entry of a frozen account / paused token changes under a non-exempt op) and by
--- correspondence on the full diff in the `gates` profile.
+/-- NFT / SFT create, metadata updates and transfers: every one of them fails while the token is paused on the shard
+    (all write through `saveESDTNFTToken`, which evaluates the gate on the token key — every nonce is covered) -/
+theorem paused_blocks_nft_functions (env : Env) (c : Call) (ctx ctx' : Ctx) (out : VMOutput) (hex : ¬ Exempt c c.caller)
+    (hs : present env.nshards env.self c.caller = true) :
+    (esdtNFTCreate env c ctx = .ok (out, ctx') ∨ esdtNFTAddURI env c ctx = .ok (out, ctx') ∨
+     esdtNFTUpdateAttributes env c ctx = .ok (out, ctx') ∨ esdtNFTTransferSender env c ctx = .ok (out, ctx')) →
+    ∃ tok, c.args[0]? = some tok ∧ ¬ Paused ctx.accts tok := by
+  have hr : c.rae = false := by cases h : c.rae <;> simp [Exempt, h] at hex ⊢
+  have ha : c.caller ≠ esdtSCAddress := fun h => hex (Or.inr h)
+  have fin : (∃ tok, c.args[0]? = some tok ∧ PauseOpen ctx.accts c c.caller tok) →
+      ∃ tok, c.args[0]? = some tok ∧ ¬ Paused ctx.accts tok := by
+    rintro ⟨tok, h0, hp⟩
+    refine ⟨tok, h0, ?_⟩
+    intro hpa; unfold Paused at hpa; rw [hp hr ha] at hpa; cases hpa
+  rintro (h | h | h | h)
+  · exact fin ((pause_nftCreate env c ctx).elim h)
+  · exact fin ((pause_addURI env c ctx).elim h)
+  · exact fin ((pause_updateAttributes env c ctx).elim h)
+  · exact fin ((pause_nftTransferSender env c ctx hs).elim h)
+
+/-- … the arrival of an NFT at its destination shard too (unless it is the refund flagged return-after-error) -/
+theorem paused_blocks_nft_receiving (env : Env) (c : Call) (ctx ctx' : Ctx) (out : VMOutput) (hne : c.caller ≠ c.rcv)
+    (hex : ¬ Exempt c c.rcv) (h : esdtNFTTransfer env c ctx = .ok (out, ctx')) :
+    ∃ tok, c.args[0]? = some tok ∧ ¬ Paused ctx.accts tok := by
+  have hr : c.rae = false := by cases h : c.rae <;> simp [Exempt, h] at hex ⊢
+  have ha : c.rcv ≠ esdtSCAddress := fun h => hex (Or.inr h)
+  obtain ⟨tok, h0, hp⟩ := (pause_nftTransferDest env c ctx hne).elim h
+  refine ⟨tok, h0, ?_⟩
+  intro hpa; unfold Paused at hpa; rw [hp hr ha] at hpa; cases hpa
+
+/-- … and each sender-side item of a multi transfer -/
+theorem paused_blocks_multi_item (env : Env) (c : Call) (l : Bool) (dst tok : Bytes) (n q : Nat) (v : Bool)
+    (ctx ctx' : Ctx) (t : Token) (hex : ¬ Exempt c c.caller)
+    (h : transferOne env c l dst tok n q v ctx = .ok (t, ctx')) : ¬ Paused ctx.accts tok := by
+  have hr : c.rae = false := by cases h : c.rae <;> simp [Exempt, h] at hex ⊢
+  have ha : c.caller ≠ esdtSCAddress := fun h => hex (Or.inr h)
+  have hp := (pause_transferOne env c l dst tok n q v ctx).elim h
+  intro hpa; unfold Paused at hpa; rw [hp hr ha] at hpa; cases hpa
+
+/-- pause / unpause change nothing outside the system account: every balance of every account is untouched, so
+    unpausing restores exactly the earlier behaviour -/
+theorem pause_unpause_preserve_balances (p : Bool) (env : Env) (c : Call) (ctx ctx' : Ctx) (out : VMOutput)
+    (h : esdtPause p env c ctx = .ok (out, ctx')) (a k : Bytes) (ha : a ≠ systemAccountAddress) :
+    ctx'.accts.read a k = ctx.accts.read a k :=
+  ((frame_sys_esdtPause p env c ctx _ (Frame.refl _ _)).elim h).read_eq a k ha
+
+-- PARTIAL (stated): the history-level clause ("for all histories interleaving the toggles with every balance-changing
+-- function") is the composition of these per-call theorems; the whole multi-transfer loops and the destination side of a
+-- multi transfer are covered item-wise (`paused_blocks_multi_item`, `spec_addNFTToDestination`, `spec_addToESDTBalance`
+-- carry the gate). The C04 oracle (no entry of a frozen account / paused token changes under a non-exempt op) and
+-- full-diff correspondence in the `gates` profile decide them on the implementation.
 
 end C04
